@@ -6,8 +6,6 @@ import (
 	"sort"
 	"strings"
 
-	"github.com/bmatcuk/doublestar/v4"
-
 	"github.com/juev/hledger-lsp/internal/analyzer"
 	"github.com/juev/hledger-lsp/internal/ast"
 	"github.com/juev/hledger-lsp/internal/include"
@@ -427,11 +425,7 @@ func includePathsInOrder(basePath string, includes []ast.Include) []string {
 	var resolved []string
 	for _, inc := range includes {
 		if include.IsGlobPattern(inc.Path) {
-			pattern := include.ExpandHome(include.ConvertHledgerGlob(inc.Path))
-			if !filepath.IsAbs(pattern) {
-				pattern = filepath.Join(dir, pattern)
-			}
-			matches, err := doublestar.FilepathGlob(pattern)
+			_, matches, err := include.Glob(dir, inc.Path)
 			if err != nil {
 				continue
 			}
